@@ -79,6 +79,12 @@ func (r *Result) Finalize() {
 	if r.Extra == nil {
 		r.Extra = map[string]any{}
 	}
+	if r.Violations == nil {
+		r.Violations = []Violation{}
+	}
+	if r.Samples == nil {
+		r.Samples = []any{}
+	}
 	counts := map[string]int{}
 	for k, v := range r.seen {
 		counts[k] = v
